@@ -1,7 +1,11 @@
-SPECIFICATION Spec
+SPECIFICATION FairSpec
 CONSTANTS
   N = 4
   Export = FALSE
 INVARIANT Correct
 INVARIANT NeverOtherDevice
 INVARIANT NeverCompressedUnasked
+INVARIANT CandidateSound
+INVARIANT NothingMeansNothing
+PROPERTY Terminates
+PROPERTY StepShape
